@@ -35,6 +35,7 @@ func lalrkCFG(rng *rand.Rand, k int) *cfg {
 		shared = append(shared, term())
 	}
 	used := map[int]bool{}
+	tail := 0
 	for tw := 0; tw < twins; tw++ {
 		a := newNT()
 		g.rules = append(g.rules, cfgRule{lhs: a, rhs: append([]int{}, alpha...)})
@@ -57,7 +58,18 @@ func lalrkCFG(rng *rand.Rand, k int) *cfg {
 		if len(shared) > 0 && rng.Intn(2) == 0 {
 			w := newNT()
 			cut := 1 + rng.Intn(len(shared))
-			g.rules = append(g.rules, cfgRule{lhs: w, rhs: append([]int{a}, ctx[:cut]...)})
+			wr := append([]int{a}, ctx[:cut]...)
+			if rng.Intn(3) == 0 { // the wrapper's last terminal is followed only by an empty nonterminal
+				if tail == 0 {
+					tail = newNT()
+					g.rules = append(g.rules, cfgRule{lhs: tail, rhs: nil})
+				}
+				wr = append(wr, tail)
+				if rng.Intn(2) == 0 { // and the wrapper has a second, longer alternative
+					g.rules = append(g.rules, cfgRule{lhs: w, rhs: append(append([]int{a}, ctx[:cut]...), term())})
+				}
+			}
+			g.rules = append(g.rules, cfgRule{lhs: w, rhs: wr})
 			head = w
 			rest = ctx[cut:]
 			if rng.Intn(3) == 0 { // a second level of wrapping
